@@ -139,7 +139,18 @@ func c18Expected(n ast.Node, sorted bool, out *[]ast.Node, budget *int) {
 			}
 			return k.Pos()
 		}
-		sort.SliceStable(kids, func(i, j int) bool { return key(kids[i]) < key(kids[j]) })
+		// a child without a valid position (synthetic receiver of `func .New()`) stays where field order puts it
+		keys := make(map[oracle.Node]gotoken.Pos, len(kids))
+		var last gotoken.Pos
+		for _, k := range kids {
+			kp := key(k)
+			if !kp.IsValid() {
+				kp = last
+			}
+			keys[k] = kp
+			last = kp
+		}
+		sort.SliceStable(kids, func(i, j int) bool { return keys[kids[i]] < keys[kids[j]] })
 	}
 	for _, k := range kids {
 		c18Expected(k.(ast.Node), sorted, out, budget)
